@@ -5,6 +5,7 @@ import ColoVerif.Proofs.SpreadFree
 import ColoVerif.Proofs.GlobalLoop
 import ColoVerif.Proofs.SpreadFWitness
 import ColoVerif.Proofs.SpreadFCoord
+import ColoVerif.Proofs.GeomTie
 /-
 C06 — global placement stays inside the placement area and exports the blend.
 
@@ -556,5 +557,34 @@ example : driftOutOfBox p0 22 = true ∧ driftOutOfBox p0 21 = false := by decid
 example : (varsAfter Rounding.ieee p0 oGap 1).approx ≠ (varsAfter Rounding.exact p0 oGap 1).approx := by decide +kernel
 
 end LoopExamples
+
+/-- The geometry layer under the placement-area and bin-region statements (`bins_inside_area`,
+`bins_inside_rows_bbox`, `ub_*`) is *translated from the C++ source*: the definitions of `Gen/GeomFns.lean`,
+regenerated on every run from the clang AST of `Rectangle(int,int,int,int)`, `Rectangle::width / height / area /
+intersects / contains / intersection`, `Circuit::isFixed / isObstruction / placement` and of the loop of
+`Circuit::computePlacementArea()`, equal the hand-written `Rect.*` / `Cell.*` / `Circuit.placementArea` the C06
+models are written in (`computePlacementArea` under the decidable hypothesis that the row coordinates are C++
+`int`s, `GeomTie.RowsInInt`).  A semantic change of one of these bodies breaks this theorem. -/
+theorem geometry_layer_translated :
+    Gen.Geom.Rectangle_ctor = Rect.mk ∧
+    Gen.Geom.Rectangle_width = Rect.width ∧
+    Gen.Geom.Rectangle_height = Rect.height ∧
+    Gen.Geom.Rectangle_area = Rect.area ∧
+    Gen.Geom.Rectangle_intersects = Rect.intersects ∧
+    Gen.Geom.Rectangle_intersection = Rect.intersection ∧
+    Gen.Geom.Circuit_isFixed = Cell.fixed ∧
+    Gen.Geom.Circuit_isObstruction = Cell.obstruction ∧
+    Gen.Geom.Circuit_placement = Cell.placement ∧
+    (∀ c : Circuit, GeomTie.RowsInInt c → Gen.Geom.Circuit_computePlacementArea c = c.placementArea) :=
+  ⟨GeomTie.gen_Rectangle_ctor_eq_model,
+   GeomTie.gen_Rectangle_width_eq_model,
+   GeomTie.gen_Rectangle_height_eq_model,
+   GeomTie.gen_Rectangle_area_eq_model,
+   GeomTie.gen_Rectangle_intersects_eq_model,
+   GeomTie.gen_Rectangle_intersection_eq_model,
+   GeomTie.gen_Circuit_isFixed_eq_model,
+   GeomTie.gen_Circuit_isObstruction_eq_model,
+   GeomTie.gen_Circuit_placement_eq_model,
+   GeomTie.gen_Circuit_computePlacementArea_eq_model⟩
 
 end ColoVerif.C06
